@@ -26,7 +26,8 @@ def c17(pid, tier, seed, selftest=False):
                 "styles and given to the tree's Keyring::new; verdict, entries in order and look-ups are validated against the "
                 "contract (three-valued) by TLC; plus every single-character corruption of encoded public keys and wrong "
                 "checksums; non-trivial = at least two lines")
-    rep.assumptions = ["entries of an accepted keyring are read from its Debug rendering (the field is private)"]
+    rep.assumptions = ["entries of an accepted keyring are observed through the look-ups the tool's commands use (get_key over the names of the "
+                       "text and of the model, get_name_from_key), not through private fields or Debug output"]
     build_harness()
     tpl, tres = st.get_templates(pid)
     rep.add_model("terms", tres, "byte-layout templates (EncodedPub, LockedKey)")
